@@ -319,6 +319,7 @@ type Interp struct {
 	leafPred   map[*ast.FuncDecl]bool
 	active     map[*ast.FuncDecl][]string // type-argument identity of the active calls, per function (progress check)
 	g9mode     bool                       // tabulating a predicate: helper predicates are interpreted, only recursive calls are answered by the oracle
+	holeEq     map[string]string          // symbolic text (a user-chosen name) -> the literal this path identified it with
 }
 
 // leafPredNames: call-free predicates that are interpreted rather than answered by the oracle (confirmed by reading: each is
@@ -856,6 +857,18 @@ func (in *Interp) assign(fr *Frame, lhs ast.Expr, v Value, define bool) {
 			b.Elems[i.V] = v
 		case *VOpaque:
 			// map write on opaque: ignore
+		case *VMap:
+			// a table the generator fills itself (used := map[string]bool{"f": true}; used[name] = true): the entry with an equal
+			// key is replaced, otherwise one is added; later lookups choose among the entries as for a literal table
+			for k, key := range b.Keys {
+				if c, ok := in.binop(token.EQL, idx, key, origin(idx)+"=="+b.KeyText[k]).(VBool); ok && c.Known && c.V {
+					b.Vals[k] = v
+					return
+				}
+			}
+			b.Keys = append(b.Keys, idx)
+			b.KeyText = append(b.KeyText, origin(idx))
+			b.Vals = append(b.Vals, v)
 		default:
 			in.fail("index assign on %T", base)
 		}
@@ -907,6 +920,18 @@ func (in *Interp) stmt(fr *Frame, s ast.Stmt) (ctl, Value) {
 		for _, sp := range gd.Specs {
 			vs, ok := sp.(*ast.ValueSpec)
 			if !ok {
+				continue
+			}
+			if len(vs.Names) > 1 && len(vs.Values) == 1 {
+				// var a, ok = x.(T) / m[k] / f(): one multi-valued expression
+				rv := in.evalMulti(fr, vs.Values[0], len(vs.Names))
+				for i, n := range vs.Names {
+					if n.Name == "_" {
+						continue
+					}
+					vv := rv[i]
+					fr.vars[in.info(fr).Defs[n]] = &vv
+				}
 				continue
 			}
 			for i, n := range vs.Names {
@@ -1370,6 +1395,35 @@ func (in *Interp) binop(op token.Token, a, b Value, sym string) Value {
 			}
 			if (ok2 && !ok1 && litLen(x) > len(ys)) || (ok1 && !ok2 && litLen(y) > len(xs)) {
 				return VBool{Known: true, V: op == token.NEQ}
+			}
+			// a text that this path has already taken to be equal to one literal differs from every other literal
+			if ok1 != ok2 {
+				t, l := x, ys
+				if ok1 {
+					t, l = y, xs
+				}
+				tr := t.render()
+				for k, choice := range in.memo {
+					if choice != 0 || !strings.HasPrefix(k, "B:") {
+						continue
+					}
+					parts := strings.SplitN(k[2:], "==", 2)
+					if len(parts) != 2 {
+						continue
+					}
+					other := ""
+					switch {
+					case parts[0] == tr:
+						other = parts[1]
+					case parts[1] == tr:
+						other = parts[0]
+					default:
+						continue
+					}
+					if !strings.Contains(other, "__") && other != l {
+						return VBool{Known: true, V: op == token.NEQ}
+					}
+				}
 			}
 			return VBool{Sym: x.render() + op.String() + y.render()}
 		}
@@ -3255,6 +3309,39 @@ func (in *Interp) mapLookup(m *VMap, key Value) (Value, bool) {
 	}
 	if allKnown || len(m.Keys) == 0 {
 		return m.Zero, false
+	}
+	// a literal looked up in a table with symbolic keys (user-chosen names): an entry that this path has already identified with
+	// another literal cannot be the one; what remains is a choice among the other entries and "not present"
+	if ks, isStr := key.(VStr); isStr {
+		if kl, isLit := ks.isLit(); isLit {
+			if in.holeEq == nil {
+				in.holeEq = map[string]string{}
+			}
+			var open []int
+			for i, k := range m.Keys {
+				if c, ok := in.binop(token.EQL, key, k, "").(VBool); ok && c.Known {
+					continue // a literal key that differs
+				}
+				if prev, ok := in.holeEq[asStr(k).render()]; ok && prev != kl {
+					continue
+				}
+				open = append(open, i)
+			}
+			if len(open) == 0 {
+				return m.Zero, false
+			}
+			var cands []string
+			for _, i := range open {
+				cands = append(cands, m.KeyText[i])
+			}
+			cands = append(cands, "default")
+			pick := in.decideC("S:"+origin(key)+"#"+strings.Join(cands, ",")+"@"+m.ID, len(cands), cands)
+			if pick < len(open) {
+				in.holeEq[asStr(m.Keys[open[pick]]).render()] = kl
+				return m.Vals[open[pick]], true
+			}
+			return m.Zero, false
+		}
 	}
 	cands := append(append([]string{}, m.KeyText...), "default")
 	pick := in.decideC("S:"+origin(key)+"#"+fmt.Sprint(len(m.Keys))+"@"+m.ID, len(m.Keys)+1, cands)
